@@ -54,6 +54,9 @@ def ncStep (l : NC) (op : Val) : Option (Except Err NC) :=
           | _ => acc) l))
       | _ => none
     else none
+  | .list [.str t, .str iv, .bool up] => if t = lit "transpose" then some (NC.transpose l iv up) else none
+  | .list [.str t] =>
+    if t = lit "augment" then some (NC.augment l) else if t = lit "diminish" then some (NC.diminish l) else none
   | .list [.str t, .str nm, .int o] =>
     if t = lit "remove_name_oct" then some (.ok (NC.removeByName l nm o))
     else if t = lit "remove_obj" then some (.ok (NC.removeObj l ⟨nm, o, 1, 64⟩))
